@@ -469,7 +469,9 @@ def streams(bs, acc):
 
 
 WHOLE_EXPRS = dict(tobytes="o.tobytes()", hash="hash(o)", eq="o == bitstring.Bits(bin=o.bin)", shl="(o << 1).bin", shr="(o >> 2).bin", inv="(~o).bin",
-                   **{'and': "(o & o).bin"}, add="(o + '0b1').bin", mul="(o * 2).bin", count="o.count(1)", str="str(o)",
+                   **{'and': "(o & o).bin"}, add="(o + '0b1').bin", addlong="(o + ('0b' + '10' * len(o) + '1')).bin", addlongbits="(o + bitstring.BitArray(bin='01' * len(o) + '110')).bin",
+                   raddshort="('0b1' + o).bin", bitsaddo="(bitstring.Bits(bin='1') + o).bin", iadd="(lambda m: (m.__iadd__('0b' + '10' * len(o) + '1'), m.bin)[1])(bitstring.BitArray(o))" if False else "(bitstring.BitArray(o) + o + o).bin",
+                   joined="bitstring.Bits().join([o, '0b1', o]).bin", mul="(o * 2).bin", count="o.count(1)", str="str(o)",
                    build="type(o)(uint=5, length=8).bin", tofile="TOFILE(o)", bytes_="bytes(o)", tobitarray="o.tobitarray().to01()",
                    dictkey="{o: 1}.get(bitstring.Bits(bin=o.bin)) if type(o).__hash__ else None", copy="o.copy().bin", whole_slice="o[:].bin")
 WHOLE_PRE = """import os, io
